@@ -313,6 +313,7 @@ def run(F, res, tier):
     edits_only_in_local_files(F, res)
     locality_comes_from_the_registered_path(F, res)
     module_locality_implies_package_locality(F, res)
+    name_classes_of_the_lexer(F, res)
 
 
 # gleam.toml tables whose entries `gleam deps download` puts under build/packages (Gleam manifest format)
@@ -566,7 +567,70 @@ def module_locality_implies_package_locality(F, res, rule="V11"):
             for a in t["args"]:
                 if isinstance(a, dict) and isinstance(a.get("k"), dict) and "str" in a["k"]:
                     strs.add(a["k"]["str"])
+    # the path test looks at the whole path of the file: nothing cuts a prefix off before (a test on the part below the module's
+    # own source root misses a fetched package that *is* a source root of its own - `<app>/build/packages/dep` registered as a root
+    # without an entry in the package graph)
+    shortened = sorted({FL.short(c) for cp in F.with_closures(p) for _b, t in F.fns[cp].calls()
+                        for c in [callee(t) or callee_def(t) or ""] if c.rsplit("::", 1)[-1] in ("strip_prefix", "file_name", "skip", "nth", "last", "root_path")})
+    res.ob(rule, "module-is-local/whole-path", "Module::is_local tests the file's whole path for a build/packages directory (no prefix is stripped first)",
+           not shortened, where=f.loc(), how="calls that shorten or re-base the path: %s" % shortened)
     paths = sorted(x for x in strs if "build/packages" in x.replace("\\", "/"))
     res.ob(rule, "module-is-local", "hir::Module::is_local answers from Package::is_local of the module's own package and from the file's path (below "
            "build/packages = fetched dependency); it can only refuse more than the package flag", pkg and own and bool(paths), where=f.loc(),
            how="answer depends on Package::is_local: %s, on the module's own package: %s; path literals tested: %s" % (pkg, own, paths))
+
+
+# Gleam's name classes (the oracle, like the precedence table of C04/G1): lowercase names are [a-z][a-z0-9_]*, discard names
+# start with `_`, uppercase names are [A-Z][A-Za-z0-9]* - no underscore. One lexeme per interesting shape.
+NAME_LEXEMES = {
+    "IDENT": ["a", "abc", "snake_case_1", "x9", "a_"],
+    "U_IDENT": ["A", "Foo", "FooBar9", "X1y"],
+    "DISCARD_IDENT": ["_", "_x", "_unused_1"],
+    "BAD_IDENT": ["fooBar", "aB", "get_X"],
+    "BAD_U_IDENT": ["Foo_bar", "Z_1", "Zed_x", "A_"],
+}
+
+
+def name_classes_of_the_lexer(F, res, rule="V12"):
+    """V12: rename accepts a new name when it is exactly one token of the class the symbol needs, so the classes are whatever
+    the lexer's table says. Evaluated on an oracle list: every well-formed lowercase / uppercase / discard name is one token
+    of its class, and every ill-formed one (camelCase for a value, an underscore inside a type name) is one token of the
+    corresponding BAD_ class - never of a valid class (maximal munch over the #[regex] table of SyntaxKind; on a tie a rule
+    with `priority = 0` loses, as in logos). A U_IDENT rule that swallows `_` makes `Zed_x` a valid new name for a type."""
+    import re as _re
+    va = F.units["syntax-rlib"].get("variant_attrs", [])
+    pats = {}
+    for e, v, txt in va:
+        if e != "SyntaxKind":
+            continue
+        m = _re.search(r'#\[regex[\(\[]\s*r?#*"(.*?)"#*\s*(?:,\s*(.*?))?[\)\]]\]$', txt)
+        if m:
+            pats.setdefault(v, []).append((m.group(1).replace("\\\\", "\\"), "priority" in (m.group(2) or "") and _re.search(r"priority\s*=\s*0\b", m.group(2) or "") is not None))
+    if not all(k in pats for k in ("IDENT", "U_IDENT")):
+        res.anchor_missing(rule, "#[regex] rules of IDENT / U_IDENT")
+        return
+    n = 0
+    for kind, lexemes in sorted(NAME_LEXEMES.items()):
+        for lx in lexemes:
+            best = {}
+            for k, ps in pats.items():
+                for p_, low in ps:
+                    try:
+                        m = _re.match(p_, lx)
+                    except _re.error:
+                        continue
+                    if m and len(m.group(0)) > 0:
+                        cur = best.get(k)
+                        if cur is None or len(m.group(0)) > cur[0]:
+                            best[k] = (len(m.group(0)), low)
+            top = max((v[0] for v in best.values()), default=0)
+            winners = {k: v for k, v in best.items() if v[0] == top}
+            if len(winners) > 1 and any(not v[1] for v in winners.values()):
+                winners = {k: v for k, v in winners.items() if not v[1]}
+            n += 1
+            # ties with kinds that are no name classes (`_` is also matched by the digits-and-underscores rule) are logos' business;
+            # among the name classes the winner must be the expected one
+            ok = top == len(lx) and set(winners) & set(NAME_LEXEMES) == {kind}
+            res.ob(rule, "name/%s/%s" % (kind, lx), "`%s` is lexed as one %s token" % (lx, kind), ok, where="crates/syntax/src/kind.rs",
+                   how="longest match %d of %d characters by %s" % (top, len(lx), sorted(winners)))
+    res.floor("oracle names classified", n, 15)
